@@ -263,7 +263,9 @@ def run(cfg, ctx):
                         fails.append({"sites": nsites, "packed": packed_mode, "triggers": tv, "got": sink.r, "expected": exp})
         ctx.bounded_result("sampler.packed_and_per_site_agree_with_spec", n, n, fails, rule="every trigger vector of 0-4 sites, packed and per-site trigger modes", samples=[{"sites": 3, "triggers": 5}], exhaustive=True)
     elif part == "roundtrip":
-        tmp = tempfile.mkdtemp(prefix="c33-", dir=os.path.dirname(os.path.abspath(__file__)) + "/../scratch")
+        scratch = os.path.join(os.path.dirname(os.path.dirname(os.path.abspath(__file__))), "scratch")
+        os.makedirs(scratch, exist_ok=True)  # scratch/ is not committed: absent after a fresh restore
+        tmp = tempfile.mkdtemp(prefix="c33-", dir=scratch)
         fails, n = [], 0
         try:
             schema = EvLogSchema(sites=[
